@@ -103,8 +103,14 @@ def r1(ctx):
         ok = len(loops) == 1 and len(og) == 1 and _v(og[0]) == "get_origin(%s.__annotations__[field])" % owner and len(ag) == 1 and _v(ag[0]) == "get_args(%s.__annotations__[field])" % owner
         ctx.check(ok, "C15.R1", fi, "%s iterates _fields and dispatches on the field annotation" % fi.name, witness=[norm(x.value) for x in og + ag])
     # fromJson ignores absent keys only
-    g = [n for n in walk_own(fj.node) if isinstance(n, ast.If) and norm(n.test) == "field in record"]
-    ctx.check(len(g) == 1, "C15.R1", fj, "fromJson sets exactly the fields present in the record")
+    # (every store into the instance executes under `field in record`, however the test is spelled; no other test on the record's keys)
+    from engine.cfg import cfg_of as _cfg
+    jcfg = _cfg(fj)
+    sets = [c for c in walk_own(fj.node) if isinstance(c, ast.Call) and norm(c.func) == "setattr"]
+    present = {("field in record", True), ("field not in record", False)}
+    ok = bool(sets) and all(present & {(norm(t), p) for (t, p) in jcfg.conditions_of(jcfg.node_of(c).id)} for c in sets)
+    tests = [n for n in walk_own(fj.node) if isinstance(n, ast.Compare) and len(n.ops) == 1 and isinstance(n.ops[0], (ast.In, ast.NotIn)) and norm(n.comparators[0]) == "record"]
+    ctx.check(ok and len(tests) == 1, "C15.R1", fj, "fromJson sets exactly the fields present in the record", witness=[norm(t) for t in tests])
 
 
 def _terms(ctx, rule):
@@ -151,8 +157,11 @@ def r3(ctx):
     # non-generic fields
     tj, fj = ctx.fn("%s:Serializable.toJson" % M), ctx.fn("%s:Serializable.fromJson" % M)
     for side, fi, helper in (("toJson", tj, "_toJsonBasic"), ("fromJson", fj, "_fromJsonBasic")):
-        cs = [c for c in walk_own(fi.node) if isinstance(c, ast.Call) and norm(c.func) == helper and "__annotations__[field]" in norm(c) or
-              (isinstance(c, ast.Call) and norm(c.func) == helper and norm(c.args[0]) == "type_")]
+        from .common import sym_text
+        from engine.cfg import cfg_of
+        fcfg = cfg_of(fi)
+        cs = [c for c in walk_own(fi.node) if isinstance(c, ast.Call) and norm(c.func) == helper and c.args and
+              ("__annotations__[field]" in sym_text(fi, c.args[0], fcfg.node_of(c)) or norm(c.args[0]) == "type_")]
         ctx.check(len(cs) == 1, "C15.R3", fi, "%s: plain fields are converted with their own annotation" % side, witness=[norm(c) for c in cs])
 
 
